@@ -48,8 +48,7 @@ theorem skew_none (s i : Segment ℝ) (h : 1e-5 * (nrm s i).length < |(delta s i
     s.getIntersectionPt i = none := by
   unfold Segment.getIntersectionPt
   simp only []
-  split_ifs with h1 h2
-  · rfl
+  split_ifs with h2
   · rfl
   all_goals (exfalso; simp only [real_gt_dec, decide_eq_true_eq, not_lt] at h2; num_real_at h2
              simp only [nrm, delta] at h; linarith)
@@ -76,7 +75,7 @@ theorem ipt_cases (s i : Segment ℝ) (tA tB : ℝ) (h : s.getIntersectionPt i =
   intro a b n d
   unfold Segment.getIntersectionPt at h
   simp only [] at h
-  split_ifs at h with h1 h2 h3 h4 h5
+  split_ifs at h with h2 h3 h4 h5
   · simp only [real_gt_dec, decide_eq_true_eq, not_lt] at h2; num_real_at h2
     simp only [real_gt_dec, real_ge_dec, Bool.and_eq_true, decide_eq_true_eq] at h3; num_real_at h3
     simp only [Option.some.injEq, Prod.mk.injEq] at h; num_real_at h
